@@ -31,4 +31,14 @@ SEEDS = [
 	binary.LittleEndian.PutUint32(b[88:92], checksum)''')]},
  {"name": "c02-gpt-reader-verifies-short-range", "properties": ["C02"], "expect": "C02-b|",
   "edits": [e("partition/gpt/table.go", "checksum := crc32.ChecksumIEEE(gpt[0:92])", "checksum := crc32.ChecksumIEEE(gpt[0:88])")]},
+ {"name": "c02-drawn-guid-not-kept", "properties": ["C02"], "expect": "C02-f|",
+  "edits": [e("partition/gpt/table.go", """		guid, _ = uuid.NewRandom()
+		t.GUID = guid.String()
+	} else {""", """		guid, _ = uuid.NewRandom()
+	} else {""")]},
+ {"name": "c02-name-rune-converted-to-uint16", "properties": ["C02"], "expect": "C02-g|",
+  "edits": [e("partition/gpt/partition.go", "	nameb := utf16.Encode(r)", """	nameb := make([]uint16, len(r))
+	for i, c := range r {
+		nameb[i] = uint16(c)
+	}""")]},
 ]
